@@ -249,6 +249,7 @@ pub fn run_sweep(kind: &str, prop: &str, maxlen: u8, is_set: bool, max_states: u
         let g = Gen::new(wd, keeps, uni.clone(), Rng::new(1), is_set);
         let mut h = Hist::new(crate::world::new_world(kind), prop, is_set, g, replay.clone());
         h.g.keeps_host = false;
+        h.light = true;
         let mut scratch = Ev::new(prop);
         for &i in path {
             if let Flow::Stop = h.step(&mut scratch, &alphabet[i]) {
@@ -273,6 +274,8 @@ pub fn run_sweep(kind: &str, prop: &str, maxlen: u8, is_set: bool, max_states: u
             let Some(mut h) = mk(&path, ev) else { return false };
             h.replay["sweep_path"] = json!(path.iter().map(|&j| format!("{:?}", alphabet[j])).collect::<Vec<_>>());
             transitions += 1;
+            // transition-level oracles now; state-level oracles once per distinct state
+            h.light = true;
             match h.step(ev, op) {
                 Flow::Stop => {
                     if !ev.violations.is_empty() {
@@ -284,6 +287,12 @@ pub fn run_sweep(kind: &str, prop: &str, maxlen: u8, is_set: bool, max_states: u
             }
             let key = (h.m.keys_hash(), shape_sig(&h.w.shape(h.slot)));
             if seen.insert(key) {
+                if let Flow::Stop = h.state_checks(ev) {
+                    if !ev.violations.is_empty() {
+                        return false;
+                    }
+                    continue;
+                }
                 ev.hash(mix(key.0 ^ key.1.rotate_left(9)));
                 let mut p2 = path.clone();
                 p2.push(i);
